@@ -40,6 +40,29 @@ def extract_item(repo, rel, sel, within=None, methods=None):
     return txt[it.start:it.end], line
 
 
+def extract_block(repo, rel, sel, frm, to, skip=0):
+    """T14: the lines strictly between the line containing `frm` and the later line containing `to` inside fn `sel`"""
+    p = os.path.join(repo, rel)
+    if not os.path.exists(p):
+        raise RuntimeError("lost anchor: %s missing" % rel)
+    txt = open(p).read()
+    masked = rs.mask(txt)
+    kind, _, name = sel.partition(" ")
+    found = [it for it in rs.list_items(masked, 0, len(masked)) if it.kind == kind and it.name == name]
+    if len(found) != 1:
+        raise RuntimeError("lost anchor: `%s` in %s" % (sel, rel))
+    host = found[0]
+    lines = txt[host.body_open:host.body_close].split("\n")
+    i_from = [i for i, ln in enumerate(lines) if rs.norm_ws(frm) in rs.norm_ws(ln)]
+    i_to = [i for i, ln in enumerate(lines) if rs.norm_ws(to) in rs.norm_ws(ln)]
+    if len(i_from) != 1 or len(i_to) != 1 or i_to[0] <= i_from[0]:
+        raise RuntimeError("lost anchor: block of `%s` between `%s` and `%s`" % (sel, frm, to))
+    if skip and any(rs.norm_ws(ln) not in ("}", "") for ln in lines[i_from[0] + 1:i_from[0] + 1 + skip]):
+        raise RuntimeError("lost anchor: block of `%s`: skipped lines are not closing braces" % sel)
+    text = "\n".join(lines[i_from[0] + 1 + skip:i_to[0]])
+    return text, txt.count("\n", 0, host.body_open) + i_from[0] + 2 + skip
+
+
 def extract_macro_body(repo, rel, sel):
     """last `{..}` block argument of the macro invocation starting with `sel` (T17)"""
     p = os.path.join(repo, rel)
@@ -150,7 +173,9 @@ def run_kani_unit(name, workdir, tier, prop):
     out["transformations"] = cfg.get("transformations", [])
     try:
         for e in cfg.get("extract", []):
-            if e.get("macro_body"):
+            if e.get("block"):
+                text, line = extract_block(REPO, e["file"], e["sel"], e["block"]["from"], e["block"]["to"], e["block"].get("skip", 0))
+            elif e.get("macro_body"):
                 text, line = extract_macro_body(REPO, e["file"], e["macro_body"])
             else:
                 text, line = extract_item(REPO, e["file"], e["sel"], within=e.get("within"))
